@@ -371,6 +371,9 @@ def run_suite(ctx, vh, name, args):
             if j in st2:
                 nxt[i] = (byname[usable[i]["name"]], pending[i][1] | st2[j])
         for i in pending:
+            if i not in order:
+                nxt[i] = pending[i]      # the re-run could not be set up: no evidence against the failure
+        for i in pending:
             if i not in nxt:
                 ctx.indeterminate += 1
                 ctx.note("scenario %s failed (%s) but not when run again: indeterminate"
